@@ -284,7 +284,7 @@ func (c *Ctx) registryCoverage(analysed map[string]bool) {
 		}
 	}
 	run.Count("registry_entries", n)
-	run.Floor("registry_entries", 30)
+	run.Floor("registry_entries", 15)
 }
 
 // actionConstants: no conversion to strategy.Action anywhere in the module (actions originate from the three constants).
